@@ -269,7 +269,10 @@ fn zstep<const N: usize>(b: &mut CircularBuffer<N, Z>, len: &mut usize, op: &ZOp
                 Ok(sl)
             }
             ZOp::ToVec => {
+                #[cfg(feature = "has-alloc")]
                 let v = b.to_vec();
+                #[cfg(not(feature = "has-alloc"))]
+                let v: Vec<Z> = b.iter().cloned().collect();
                 chk(v.len() == l0, format!("to_vec has {} elements expected {}", v.len(), l0))?;
                 Ok(l0)
             }
@@ -457,10 +460,10 @@ pub fn zst<const N: usize>(ctx: &mut Ctx) {
                     let (_, len) = build_z::<N>(pf, pb, popf, walk);
                     let live_base = live();
                     for op in zops(len, N, fills) {
-                        let key = hash64(&format!("zst|{}|{}|{}|{}|{}|{:?}", N, walk, pf, pb, popf, op));
-                        if !ctx.mine(key) {
+                        if !ctx.mine_next() {
                             continue;
                         }
+                        let key = hash64(&format!("zst|{}|{}|{}|{}|{}|{:?}", N, walk, pf, pb, popf, op));
                         if !ctx.begin_case(|| format!("zst N={} walk={} push_front={} push_back={} pop_front={} len={} op={:?}", N, walk, pf, pb, popf, len, op)) {
                             continue;
                         }
